@@ -670,10 +670,10 @@ def sentinel(rng):
 
 def gen_wellformed(rng, tier):
     cases = []
-    nperm = 6 if tier == "quick" else 40
-    nrand = 2500 if tier == "quick" else 40000
-    nbig = 500 if tier == "quick" else 6000
-    narr = 600 if tier == "quick" else 8000
+    nperm = 12 if tier == "quick" else 150
+    nrand = 7000 if tier == "quick" else 110000
+    nbig = 1200 if tier == "quick" else 16000
+    narr = 1800 if tier == "quick" else 24000
     # all permutations of one request per key, <= 5 keys, plus the same with an absent key in front
     for _ in range(nperm):
         for nk in (1, 2, 3, 4, 5):
@@ -731,7 +731,7 @@ def gen_wellformed(rng, tier):
 
 def gen_malformed(rng, tier):
     """truncated / corrupted documents: outside C03's domain; correspondence (and F17) only"""
-    n = 500 if tier == "quick" else 8000
+    n = 1500 if tier == "quick" else 24000
     cases = ["hist m SS 81 -", "hist s SS 81 -", "hist m SS 81 G:s61:s32", "hist m TT 82a16105 G:s61:s32", "hist m SS dfffffffff G:s61:s32",
              "hist m SS deffff V", "ahist m SS ddffffffff g:s32", "hist m SS - -", "ahist m SS - e", "hist m SS 81c005 G:s61:s32", "hist m SS 81c105 V"]
     for _ in range(n):
@@ -790,10 +790,42 @@ def features(line):
     t = line.split(" ")
     h = t[4]
     f = [t[0], t[1], t[2]]
-    for tag, name in (("O:", "obj-child"), ("A:", "arr-child"), ("B:", "bin-child"), ("V", "visit")):
-        if tag in h:
-            f.append(name)
+    if any(tag in h for tag in ("O:", "A:", "B:", ",o,", ",a,", "b:")) or h.startswith(("o,", "a,")):
+        f.append("children")
+    if "V" in h.split(","):
+        f.append("visit")
     return " ".join(f)
+
+
+def spec_line(line):
+    t = line.split(" ")
+    return " ".join([("spec" if t[0] == "hist" else "aspec")] + t[1:])
+
+
+def spec_vs_model(line, m, sp):
+    """the theorems' statement, tested on the extracted code: whenever the specification's answer is free
+    of partly-read array children, the model answers with the same tokens, ends right behind the document
+    (error-free histories: T_C03_mp_refines_outside) or with the same error and no terminate (histories
+    ending in an error: NOT PROVED, tested here)"""
+    t = sp.split(" ")
+    if sp in ("NODOC", "BADDOC") or len(t) < 3:
+        return None
+    mt = m.split(" ")
+    if t[1] == "END":
+        if t[2] != "1":
+            return None
+        data = bytes.fromhex(line.split(" ")[3])
+        _, i = M.dec_value(data)
+        ok = len(mt) >= 3 and mt[0] == t[0] and mt[1] == "END" and mt[2] in (str(i), "?")
+        return None if ok else "error-free history"
+    if t[1] == "ERR":
+        if t[3] != "1":
+            return None
+        ok = len(mt) >= 3 and mt[0] == t[0] and mt[1] == "ERR" and mt[2] == t[2]
+        if not ok and len(mt) >= 3 and mt[1] == "ERR?" and mt[0] == t[0] and mt[2] == t[2]:
+            return None          # thrown from inside a value (invalid timestamp size): unwinding not modelled
+        return None if ok else "history ending in an error"
+    return None
 
 
 def known_entries(vlib):
@@ -839,6 +871,18 @@ def run(ctx, vlib):
         elif len(diffs) < 20:
             diffs.append(rec)
 
+    # the statement of the theorems, tested on the extracted model and specification
+    nsv = 0
+    sv = [c for c in wf if c.split(" ")[1] == "m"]
+    osv = vlib.run_driver(model, [spec_line(c) for c in sv])
+    mans = dict(zip(cases, om))
+    for c, sp in zip(sv, osv):
+        nsv += 1
+        bad = spec_vs_model(c, mans[c], sp)
+        if bad and len(diffs) < 20:
+            diffs.append(dict(driver=DRIVER, case=c, implementation=mans[c], model=sp, judge="SPEC-VS-MODEL",
+                              why="extracted specification and extracted model disagree on a case inside the theorems' hypotheses (%s)" % bad))
+
     # shrink what is reported
     def still_fails(l2):
         a2 = vlib.run_driver(impl, [l2], jobs=1)[0]
@@ -869,7 +913,7 @@ def run(ctx, vlib):
     step = max(1, len(cases) // 3)
     samples = [dict(case=cases[i], implementation=oi[i], model=om[i]) for i in range(0, len(cases), step)][:4]
     return dict(evaluations=len(cases), distinct_nontrivial=nontrivial, samples=samples, classes=classes, failing=failing, diffs=diffs,
-                known_lines=known_lines, extra=dict(judge_verdicts=verdicts),
+                known_lines=known_lines, extra=dict(judge_verdicts=verdicts, spec_vs_model_cases=nsv),
                 rule="object documents with 0-8 distinct keys of every supported kind (string / integer in every wire format / float / double / timestamp 32-64-96), values scalars, strings, byte arrays, nested arrays and objects (independent encoder, random format widths): all permutations of one request per key for 1-5 keys; random histories of up to 24 requests with absent and repeated keys, mismatching targets, children opened and left partly read, binary-then-array fallback, VisitKeys; documents of several 256-byte stream chunks with backward requests; array roots read element by element with every target kind; each through the string reader, the stream reader and MsgPackReadRootScope, policies SS/TT/ST/TS; plus truncated / corrupted documents and unsupported key kinds (correspondence only). Every implementation answer is also compared with an independent association-list evaluation. non-trivial = distinct case in which a value was loaded, a child opened or keys visited",
                 broken="correspondence MsgPack scope model vs include/bitserializer/msgpack_archive.h (drv_mpscope)")
 
